@@ -1,2 +1,3 @@
 SPECIFICATION Spec
+CONSTANT KS = {1}
 CHECK_DEADLOCK FALSE
